@@ -244,7 +244,7 @@ func c07Direction(r *R, f *core.FSM) {
 		if site == nil {
 			continue
 		}
-		ev, pev := r.d.Of(core.Arg(site.Common(), 1)), r.d.Of(core.Arg(site.Common(), 2))
+		ev, pev := r.dOf(site.(ssa.Instruction)).Of(core.Arg(site.Common(), 1)), r.dOf(site.(ssa.Instruction)).Of(core.Arg(site.Common(), 2))
 		key := m.method
 		r.c.Check(ev == m.method && pev == m.method+"Progress", "C07.4", key+"/events", r.p.InstrPos(site), "fires "+m.method+" / "+m.method+"Progress", fmt.Sprintf("Channels.%s fires (%s, %s)", m.method, ev, pev))
 		for i, w := range []string{"chid", "", "", "delta", "index", "unique"} {
